@@ -227,6 +227,20 @@ thread_local! { static EARLY_IDS: std::cell::RefCell<Vec<(u32, u32, u32)>> = con
 pub fn early_ids() -> Vec<(u32, u32, u32)> { EARLY_IDS.with(|c| c.borrow().clone()) }
 pub fn note_early_id(p: (u32, u32, u32)) { EARLY_IDS.with(|c| c.borrow_mut().push(p)); }
 pub fn clear_early_ids() { EARLY_IDS.with(|c| c.borrow_mut().clear()); }
+thread_local! { static EPMD_REPLY_CUT: std::cell::Cell<Option<usize>> = const { std::cell::Cell::new(None) }; }
+/// When set, the fake EPMD writes each of its replies in two pieces (the first `k` bytes, then - fifty scheduler turns later - the rest).
+pub fn set_epmd_reply_cut(v: Option<usize>) { EPMD_REPLY_CUT.with(|c| c.set(v)); }
+async fn epmd_write(s: &mut tokio::net::TcpStream, r: &[u8]) {
+    use tokio::io::AsyncWriteExt;
+    match EPMD_REPLY_CUT.with(|c| c.get()) {
+        Some(k) if k > 0 && k < r.len() => {
+            let _ = s.write_all(&r[..k]).await; let _ = s.flush().await;
+            for _ in 0..50 { tokio::task::yield_now().await; }
+            let _ = s.write_all(&r[k..]).await;
+        }
+        _ => { let _ = s.write_all(r).await; }
+    }
+}
 pub fn set_epmd_creation(v: Option<u32>) { EPMD_CREATION_OVERRIDE.with(|c| c.set(v)); }
 pub fn epmd_creation() -> u32 { EPMD_CREATION_OVERRIDE.with(|c| c.get()).unwrap_or(EPMD_CREATION) }
 
@@ -247,7 +261,7 @@ async fn epmd_task(l: tokio::net::TcpListener, peer_port: u16, log: Arc<Mutex<Ve
                     // ALIVE2_REQ -> ALIVE2_X_RESP with a 32-bit creation; the registration lives as long as the socket
                     let mut r = vec![118u8, 0];
                     r.extend_from_slice(&epmd_creation().to_be_bytes());
-                    let _ = s.write_all(&r).await;
+                    epmd_write(&mut s, &r).await;
                     let mut sink = [0u8; 16];
                     let _ = s.read(&mut sink).await;
                 }
@@ -264,7 +278,7 @@ async fn epmd_task(l: tokio::net::TcpListener, peer_port: u16, log: Arc<Mutex<Ve
                     } else {
                         r.push(1);
                     }
-                    let _ = s.write_all(&r).await;
+                    epmd_write(&mut s, &r).await;
                 }
                 _ => {}
             }
@@ -281,9 +295,10 @@ pub struct Listeners {
 
 impl Listeners {
     pub fn new() -> Listeners {
-        let peer = std::net::TcpListener::bind("127.0.0.1:0").expect("bind peer listener");
+        // all loopback addresses (127.0.0.x): a second remote node on another loopback host reaches the same listeners
+        let peer = std::net::TcpListener::bind("0.0.0.0:0").expect("bind peer listener");
         peer.set_nonblocking(true).unwrap();
-        let epmd = std::net::TcpListener::bind("127.0.0.1:0").expect("bind epmd listener");
+        let epmd = std::net::TcpListener::bind("0.0.0.0:0").expect("bind epmd listener");
         epmd.set_nonblocking(true).unwrap();
         Listeners { peer, epmd }
     }
